@@ -179,6 +179,37 @@ func describeDiff(ref, got []app.VerifC15Asset) (symptom, what string) {
 
 // checkServed evaluates the admission and contiguity clauses on the served assets.
 func (s *synRunner) checkServed(id string, as []app.VerifC15Asset, in any, timeMode map[string]bool) {
+	// every MPD of a served asset has all its representations loaded (no partially registered asset)
+	if si, ok := in.(synInput); ok {
+		for _, a := range as {
+			have := map[string]bool{}
+			for _, r := range a.Reps {
+				have[r.ID] = true
+			}
+			for _, l := range si.Layouts {
+				if l.Asset != a.AssetPath {
+					continue
+				}
+				for _, m := range l.MPDs {
+					registered := false
+					for _, n := range a.MPDs {
+						registered = registered || n == m.Name
+					}
+					if !registered {
+						continue
+					}
+					for _, set := range m.Sets {
+						for _, r := range set.Reps {
+							if !have[r.ID] {
+								s.c.Fail(id, "partial-asset:mpd-with-missing-representation",
+									fmt.Sprintf("asset %s is served with %s registered but representation %s of that MPD is not loaded", a.AssetPath, m.Name, r.ID), in)
+							}
+						}
+					}
+				}
+			}
+		}
+	}
 	for _, a := range as {
 		var ref *app.VerifC15Rep
 		for i := range a.Reps {
